@@ -146,3 +146,46 @@ From PB Require Import StdRates StdRatesProofs.
 Theorem C01_standard_baud_rates : forall b : baudrate, baud_to_rate b = std_rate b.
 Proof. exact standard_baud_rates. Qed.
 Print Assumptions C01_standard_baud_rates.
+
+(* ------------------------------------------------------------------------------------------ *)
+(* ORACLE SOUNDNESS (Proofs/FdlOracleSound1-3.v): the executable monitors of Model/FdlOracle.v that
+   ocaml/run_fdl.ml runs on the IMPLEMENTATION's transcripts never reject a transcript of the MODEL.
+   `model_transcript A ops p apps ins` is the event list the driver would build from a run of the model:
+   `A new`, then the inputs `ins` in order - API calls (on / off / pas) and polls (now, PHY busy flag,
+   bytes newly received); the PHY buffer is the harness PHY's (bytes only appended between polls, a poll
+   drops what it consumed); a poll event carries inputs, transmission, consumed bytes, call log and the
+   view computed from the model state (view_of: what obs_of / view_of_obs of the driver give); a call
+   that panics ends the transcript as in the driver.
+   Hypotheses: parameters the builder can produce; total applications (any number, any state type);
+   `ins_ok 0 ins`: poll times in [0, 2^62), strictly increasing and > 0 (the harness clock advances before
+   every poll), received bytes are bytes.  ALL such histories: no class of inputs is excluded.
+   The corner O9 is included: the station re-creates itself after the second address collision while
+   listening; with further telegrams in the same buffer the code keeps last_bus_activity = now in the offline
+   station and may claim in the very poll that takes it online again (two stations with one address: outside the
+   class of C01, not a property violation).  The R01 rules follow the code there (an offline station observes
+   nothing; the claim reference is re-based at the self-offline poll).
+   Conclusion: no rule of property C01 (R01_tx_while_busy, R01_sync_pause, R01_who_may_transmit,
+   R01_check_pass_before_slot, R01_claim_before_timeout) is reported.  The separate promptness monitor
+   Model/FdlPrompt.v (P01_sync_pause_exceeded) is NOT covered. *)
+From PB Require Import FdlOracle FdlOracleSound1 FdlOracleSound3.
+
+Theorem C01_oracle_sound : forall (A : Type) (ops : app_ops A) (p : params),
+  apps_total A ops -> builder_valid p ->
+  forall (apps : list A) (ins : list minput),
+  ins_ok 0 ins ->
+  forall k r, In (k, r) (monitor p (length apps) (model_transcript A ops p apps ins)) -> rule_prop r <> PC01.
+Proof. exact c01_oracle_sound. Qed.
+Print Assumptions C01_oracle_sound.
+
+(* non-vacuity and the corner O9: a model history (station 3, 19.2 kbit/s, no applications) that goes
+   through the state "Offline with last_bus_activity recorded" (`no_stale` fails) - three token telegrams with
+   the own source address in one buffer while listening - and is set online again much later: it claims in the poll that takes it online.  The monitor
+   accepts this transcript (before the adaptation of the rules it reported R01_who_may_transmit at event 5). *)
+Definition C01_ex_params : params := mkParams 3 B19200 100 80000 1 16 1 11 None.
+Definition C01_ex_inputs : list minput :=
+  [InApi ApiOnline; InPoll 834 false []; InPoll 2629 false [220;5;3;220;5;3;220;5;3]; InApi ApiOnline; InPoll 134064 false []].
+Example C01_oracle_corner_accepted :
+  builder_validb C01_ex_params = true /\ ins_ok 0 C01_ex_inputs /\
+  monitor C01_ex_params 0 (model_transcript unit unit_app_ops C01_ex_params [] C01_ex_inputs) = [] /\
+  ~ transcript_ok unit unit_app_ops C01_ex_params no_stale [] C01_ex_inputs.
+Proof. exact c01_corner_example. Qed.
